@@ -74,7 +74,7 @@ struct radio_state
     std::uint8_t                                            front_rx_header[ 2 ] = { 0, 0 };
 };
 
-extern radio_state* g_current_radio;        // set while a link layer is constructed / alive (one world per process at a time)
+inline radio_state* g_current_radio = nullptr;     // set while a link layer is constructed / alive (one world per process at a time)
 
 template < std::size_t TransmitSize, std::size_t ReceiveSize, typename CallBack >
 class sim_radio : public bluetoe::link_layer::ll_data_pdu_buffer< TransmitSize, ReceiveSize, sim_radio< TransmitSize, ReceiveSize, CallBack > >, public radio_state
